@@ -65,6 +65,7 @@ var c11Scens = []scen{
 	{"ocra fields in one shared buffer 1||2", []string{"ocra-short"}, [][]string{{"ocra-arena-1"}, {"ocra-arena-0", "ocra-arena-2"}}, [2]int{2, 3}, false},
 	{"after a long message: ocra||ocra", []string{"ocra-long"}, [][]string{{"ocra-short"}, {"ocra-validate-hit"}}, [2]int{2, 3}, false},
 	{"after two long messages: ocra||ocra||ocra", []string{"ocra-long", "ocra-long-2"}, [][]string{{"ocra-short"}, {"ocra-arena-0"}, {"ocra-validate-hit"}}, [2]int{1, 2}, false},
+	{"decode-and-wipe||hotp||totp", []string{"hotp-c1"}, [][]string{{"decode-and-wipe", "decode-and-wipe"}, {"hotp-c1"}, {"totp-gen"}}, [2]int{1, 2}, false},
 	{"3xhotp retained", []string{"hotp-c1"}, [][]string{{"hotp-c1", "hotp-1digit"}, {"hotp-c2^40-sha256-8"}, {"hotp-10digits"}}, [2]int{1, 2}, false},
 	{"hotp||hotp||gc unbounded-at-pool-ops", []string{"hotp-c1"}, [][]string{{"hotp-c1", "totp-gen"}, {"hotp-c2^40-sha256-8", "hotp-1digit"}, {"gc"}}, [2]int{-1, -1}, true},
 	{"ocra||ocra||adversary unbounded-at-pool-ops", []string{"ocra-short"}, [][]string{{"ocra-short", "ocra-long"}, {"ocra-validate-hit"}, {"adversary-6287"}}, [2]int{-1, -1}, true},
